@@ -334,12 +334,56 @@ async fn run_script(connect: bool, steps: Vec<String>) -> String {
                 out.push(if h.is_finished() { "err".to_string() } else { "ok".to_string() });
                 calls.push(h);
             }
+            "burst" => {
+                // k tasks send n messages each through the node to one remote process, concurrently
+                let k: usize = t.num();
+                let n: usize = t.num();
+                let size: usize = t.num();
+                let to = ExternalPid::new(Atom::new(remote.clone()), 9, 0, 1);
+                let mut hs = Vec::new();
+                for task in 0..k {
+                    let node2 = node.clone();
+                    let to2 = to.clone();
+                    hs.push(tokio::spawn(async move {
+                        let mut ok = 0usize;
+                        for seq in 0..n {
+                            let msg = OwnedTerm::Tuple(vec![
+                                OwnedTerm::Integer(task as i64),
+                                OwnedTerm::Integer(seq as i64),
+                                OwnedTerm::Binary(vec![(task * 16 + seq) as u8; size]),
+                            ]);
+                            if node2.send(&to2, msg).await.is_ok() {
+                                ok += 1;
+                            }
+                            tokio::task::yield_now().await;
+                        }
+                        ok
+                    }));
+                }
+                let mut total = 0;
+                for h in hs {
+                    total += h.await.unwrap_or(0);
+                }
+                out.push(format!("sent {total}"));
+            }
             "expire" => {
                 tokio::time::sleep(Duration::from_millis(120)).await;
                 settle().await;
                 out.push("-".to_string());
             }
-            "frame" | "tick" | "sync" | "reply" | "replyto" | "overlong" | "close" => {
+            "quiet" => {
+                // a quiet period: nothing but a tick every second
+                let secs: u64 = t.num();
+                if let Some(p) = peer.as_mut() {
+                    for _ in 0..secs {
+                        tokio::time::sleep(Duration::from_millis(1000)).await;
+                        let _ = p.wr.write_all(&[0, 0, 0, 0]).await;
+                        let _ = p.wr.flush().await;
+                    }
+                }
+                out.push("-".to_string());
+            }
+            "frame" | "tick" | "sync" | "reply" | "replystale" | "replyto" | "overlong" | "close" => {
                 let Some(p) = peer.as_mut() else {
                     out.push("-".to_string());
                     continue;
@@ -362,6 +406,20 @@ async fn run_script(connect: bool, steps: Vec<String>) -> String {
                         let i: usize = t.next().trim_start_matches('@').parse().expect("call index");
                         let body = read_term(&mut t);
                         reply_pid(p, i).await.map(|to| send_frame_bytes(&to, &body))
+                    }
+                    "replystale" => {
+                        // addressed to the reply identifier of call i, but of another incarnation (creation) or serial
+                        let i: usize = t.next().trim_start_matches('@').parse().expect("call index");
+                        let what = t.next();
+                        let body = read_term(&mut t);
+                        reply_pid(p, i).await.map(|to| {
+                            let other = if what == "creation" {
+                                ExternalPid::new(to.node.clone(), to.id, to.serial, to.creation + 1)
+                            } else {
+                                ExternalPid::new(to.node.clone(), to.id, to.serial + 1, to.creation)
+                            };
+                            send_frame_bytes(&other, &body)
+                        })
                     }
                     "replyto" => {
                         let to = pid_arg(&mut t, &pids);
@@ -429,7 +487,23 @@ async fn run_script(connect: bool, steps: Vec<String>) -> String {
                 out.push(show_events(&logs[k].lock().unwrap()));
             }
             "wrote" => {
-                tokio::time::sleep(Duration::from_millis(3)).await;
+                // wait until the peer has read everything that is on its way (small writes can sit behind Nagle's
+                // algorithm and a delayed ACK for tens of milliseconds)
+                let mut last = usize::MAX;
+                let mut stable = 0;
+                for _ in 0..2000 {
+                    tokio::time::sleep(Duration::from_millis(5)).await;
+                    let n = peer.as_ref().map_or(0, |p| p.got.lock().unwrap().len());
+                    if n == last {
+                        stable += 1;
+                        if stable >= 20 {
+                            break;
+                        }
+                    } else {
+                        stable = 0;
+                    }
+                    last = n;
+                }
                 out.push(peer.as_ref().map_or(".".to_string(), |p| hex(&p.got.lock().unwrap())));
             }
             other => panic!("bad node step {other}"),
